@@ -50,7 +50,7 @@ REG = {
  'C04': dict(
     text='Lean 4 theorems: the engine\'s batched index pipeline (prepend blank frame, +1, repeat mask, zeroing, -1, filter), the '
          'stand-alone groupby decoder and greedy_filtration all equal the CTC collapse of the first-arg-max path, for every '
-         'number of classes, frames and lines; batched decoding is line-wise. Tied to the real torch/numpy code by exact '
+         'number of classes, frames and lines; batched decoding is line-wise; the result never contains the blank, holds only arg-max classes of the line, is no longer than the line has frames, and is empty for an all-blank line. Tied to the real torch/numpy code by exact '
          'correspondence (exhaustive arg-max patterns + random integer tensors with ties); the whole engine (process_lines -> run_ocr -> '
          'greedy_decode_ctc) behind stub networks that answer padding with blank, one character or two characters in turn: returned text = '
          'collapse(arg-max of the RETURNED logits) = stand-alone decoder on them, for every line of every batch.',
